@@ -91,7 +91,7 @@ pub struct ArmOpts {
 pub fn generate(arm: &str, seed: u64, o: ArmOpts) -> Scenario {
     let mut rng = Rng::new(seed);
     let mut trng = rng.fork(1);
-    let table = Table::generate(&mut trng, GenOpts { depth_free: o.depth_free, long_arcs: o.long_arcs, max_n: 8, max_s: 6, reconverge: o.reconverge });
+    let table = Table::generate(&mut trng, GenOpts { depth_free: o.depth_free, long_arcs: o.long_arcs, max_n: 8, max_s: 6, reconverge: o.reconverge, dom_friendly: o.force_dom == Some(true) || rng.chance(1, 3) });
     let dd = if o.force_pooled { Dd::Pooled } else { *rng.pick(&[Dd::Lel, Dd::Fc, Dd::Pooled]) };
     let cache = o.force_cache.unwrap_or_else(|| rng.chance(1, 2));
     let depth_free = !table.depth_in_state;
@@ -99,7 +99,7 @@ pub fn generate(arm: &str, seed: u64, o: ArmOpts) -> Scenario {
     let wmax = *rng.pick(&[1, 1, 1, 2, 2, 2, 3, 3, 4]);
     let width = if o.perturb && rng.chance(1, 3) { WidthPlan::Jitter { seed: rng.next(), max: wmax.max(2) } } else { WidthPlan::Fixed(wmax) };
     let want_dom = o.force_dom.unwrap_or_else(|| rng.chance(1, 3));
-    let dominance = if want_dom { Some(rng.pick(&[DomRule::Exact, DomRule::Exact, DomRule::FinerKey, DomRule::ExtraCoord]).clone()) } else { None };
+    let dominance = if want_dom { Some(rng.pick(&[DomRule::Exact, DomRule::FinerKey, DomRule::Sim, DomRule::Sim]).clone()) } else { None };
     let dom_weaken_per_mille = if o.perturb && dominance.is_some() && rng.chance(1, 4) { 200 } else { 0 };
     let cache_lossy_per_mille = if o.perturb && cache && o.force_cache.is_none() && rng.chance(1, 4) { 150 } else { 0 };
     let maxt = if o.max_threads == 0 { 4 } else { o.max_threads };
@@ -123,7 +123,7 @@ pub fn generate(arm: &str, seed: u64, o: ArmOpts) -> Scenario {
     let eff_threads = threads2.unwrap_or(threads);
     let strategy = if o.parallel { draw_strategy(&mut rng, eff_threads, cache) } else { Strategy::Uniform };
     Scenario { arm: arm.to_string(), seed, table, parallel: o.parallel, dd, cache, nodup, width, dominance, dom_weaken_per_mille, cache_lossy_per_mille,
-        threads, threads2, cut, primal, strategy, sched_seed: rng.next(), max_steps: 400_000 }
+        threads, threads2, cut, primal, strategy, sched_seed: rng.next(), max_steps: 60_000 }
 }
 
 /// every complete feasible decision sequence with its value (as (variable, value) pairs sorted by variable)
@@ -138,6 +138,7 @@ pub fn full_solutions(inst: &Inst) -> Vec<(isize, Vec<(usize, isize)>)> {
     out
 }
 
+pub const D5_TAG: &str = " [D5-signature: a cut-set handed back a sub-problem that had already been popped (same state, depth and path)]";
 type FatalHook = Box<dyn Fn(&Violation, &SchedReport) + Send + Sync>;
 static FATAL_HOOK: Mutex<Option<FatalHook>> = Mutex::new(None);
 /// The runner registers what must happen when the scheduler has to kill the process (deadlock, step bound).
@@ -149,7 +150,7 @@ fn fatal_handler(f: Fatal, rep: &SchedReport) {
         Fatal::StepBound => (vec!["C04"], "step-bound"),
         Fatal::UnexpectedWaker => (vec![], "harness-unexpected-waker"),
     };
-    let v = Violation { props: props.iter().map(|s| s.to_string()).collect(), class: class.into(), msg: format!("{:?}: worker states {:?} after {} scheduling steps", f, rep.thread_states, rep.stats.steps) };
+    let v = Violation { props: props.iter().map(|s| s.to_string()).collect(), class: class.into(), msg: format!("{:?}: worker states {:?} after {} scheduling steps{}", f, rep.thread_states, rep.stats.steps, if REPUSH_OF_POPPED.load(Ordering::SeqCst) > 0 { D5_TAG } else { "" }) };
     if let Some(h) = FATAL_HOOK.lock().unwrap().as_ref() { h(&v, rep); }
     use std::io::Write; let _ = std::io::stdout().flush();
 }
@@ -169,10 +170,12 @@ pub fn execute(sc: &Scenario) -> Outcome {
 fn exec_with<D, C>(sc: &Scenario, inst: Arc<Inst>) -> Outcome
 where D: DecisionDiagram<State = TState> + Default, C: Cache<State = TState> + Default + Send + Sync {
     let rc = new_run_ctx();
+    REPUSH_OF_POPPED.store(0, Ordering::SeqCst);
     rc.cache_lossy_per_mille.store(sc.cache_lossy_per_mille, Ordering::Relaxed);
     rc.cache_seed.store(sc.seed as usize, Ordering::Relaxed);
     monitor::reset_counters();
     let all_relevant = sc.table.irrelevant.iter().all(|r| r.iter().all(|x| !x));
+    monitor::C13_ENABLED.store(all_relevant, Ordering::Relaxed);
     let pb = MonProblem { inner: inst.as_ref(), depth_of: tdepth, all_relevant };
     let rlx_inner = TRelax(inst.as_ref());
     let rlx = MonRelax { pb: &pb, inner: &rlx_inner };
@@ -186,7 +189,7 @@ where D: DecisionDiagram<State = TState> + Default, C: Cache<State = TState> + D
         None => &dom_empty,
     };
     let mut out = Outcome::default();
-    let pop_bound = if sc.parallel { 0 } else { 200_000 };
+    let pop_bound = if sc.parallel { 0 } else { 20_000 };
     let mut f_simple; let mut f_nodup;
     let (fstats, ferrs);
     macro_rules! run_solver { ($fringe:expr) => {{
@@ -265,7 +268,8 @@ pub fn judge(sc: &Scenario, out: &Outcome) -> Vec<Violation> {
     let inst = Inst::new(sc.table.clone());
     let opt = inst.opt();
     let mut v: Vec<Violation> = vec![];
-    let mut add = |props: Vec<String>, class: &str, msg: String| v.push(Violation { props, class: class.into(), msg });
+    let d5 = if out.fringe.repush_of_popped > 0 { D5_TAG } else { "" };
+    let mut add = |props: Vec<String>, class: &str, msg: String| v.push(Violation { props, class: class.into(), msg: if matches!(class, "no-termination" | "wrong-optimum" | "not-exact" | "exact-but-not-optimal" | "ub-after-complete") { format!("{msg}{d5}") } else { msg } });
     let s = |x: &str| x.to_string();
     let term_props = || { let mut p = vec![if sc.parallel { s("C04") } else { s("C01") }]; if sc.dd == Dd::Pooled && sc.table.irrelevant.iter().any(|r| r.iter().any(|x| *x)) { p.push(s("C15")); } p };
 
